@@ -239,7 +239,7 @@ pub fn run(tier: Tier, shard: Shard, rep: &mut Report) {
     let all = programs(tier);
     let progs: Vec<(Program, Mode)> = all.iter().map(|p| (p.0.clone(), p.1)).collect();
     let mut chk = |pi: usize, x: &Execution| check(x, if all[pi].2 { Some(v0()) } else { None });
-    e1::explore_all("C04", &progs, shard, rep, &|| RunOpts::default(), &mut chk, cap);
+    e1::explore_all("C04", &progs, shard, rep, &|_| RunOpts::default(), &mut chk, cap);
     let _ = world::fnv(b"");
 }
 
